@@ -245,4 +245,27 @@ def specRun (l : List Val) : List Op → List Val × List Res
     let (l2, rs) := specRun l1 ops
     (l2, r :: rs)
 
+/-! ## Ownership bookkeeping of a history (used by the ownership theorem) -/
+
+/-- the data the history stored successfully (insert/append that returned a node) -/
+def stored : List Op → List Res → List Val
+  | .insert _ v :: ops, .pos (some _) :: rs => v :: stored ops rs
+  | .append _ v :: ops, .pos (some _) :: rs => v :: stored ops rs
+  | _ :: ops, _ :: rs => stored ops rs
+  | _, _ => []
+
+/-- the data handed to the free callback, in call order -/
+def freedBy : List Res → List Val
+  | .removed _ f :: rs => f ++ freedBy rs
+  | .cleared f :: rs => f ++ freedBy rs
+  | _ :: rs => freedBy rs
+  | [] => []
+
+/-- every remove / clear of the history passes the free callback -/
+def AllFree : List Op → Prop
+  | .remove _ fr :: ops => fr = true ∧ AllFree ops
+  | .clear fr :: ops => fr = true ∧ AllFree ops
+  | _ :: ops => AllFree ops
+  | [] => True
+
 end MgModel.C11.AL
